@@ -24,7 +24,7 @@
 
    Only statements; proofs are in Proofs/IfaceProofs.v. *)
 From Coq Require Import ZArith List Bool String.
-From SX Require Import Model.Iface Proofs.IfaceProofs.
+From SX Require Import Model.Iface Proofs.IfaceProofs Proofs.IfaceNetProofs.
 Import ListNotations.
 Open Scope Z_scope.
 
@@ -113,11 +113,8 @@ Theorem C17_overrides_win : forall cfg t ov o,
   (forall s, ov_srcip ov = Some s -> o_srcip o = to4 s /\ to4 s <> None) /\
   (forall m, ov_srcmac ov = Some m -> o_srcmac o = Some m).
 Proof.
-  intros cfg t ov o H. apply choose_inv in H.
-  destruct H as (_ & Hn & Hm & _ & ipo & s & _ & Hs & H4 & Hst). split; [|split].
-  - intros Hne. split; [exact (Hn Hne)|exact (proj2 (interface_by_name_inv _ _ _ (Hn Hne)))].
-  - intros s' Hs'. unfold source_of in Hs. rewrite Hs' in Hs. injection Hs as ->. split; [exact H4|exact (Hst eq_refl)].
-  - intros m Hm'. unfold mac_of in Hm. rewrite Hm' in Hm. exact Hm.
+  intros cfg t ov o H. destruct (overrides_win true cfg t ov o H) as (H1 & H2 & H3).
+  split; [exact H1|split; [|exact H3]]. intros s Hs. destruct (H2 s Hs) as [Ha Hb]. exact (conj Ha (Hb eq_refl)).
 Qed.
 
 (* --srcip and --srcmac never influence which interface is used *)
@@ -134,14 +131,7 @@ Theorem C17_vpn_iff_no_mac : forall cfg t ov o,
   (o_vpn o = true <-> o_srcmac o = None) /\
   (o_vpn o = true <-> ov_srcmac ov = None /\ if_mac (o_iface o) = None) /\
   choose_arp cfg t ov = (if o_vpn o then Err ErrSrcMAC else Ok o).
-Proof.
-  intros cfg t ov o H. pose proof (choose_arp_spec true cfg t ov) as Ha. unfold choose_arp. rewrite Ha.
-  unfold choose in H. rewrite H. apply choose_inv in H. destruct H as (_ & _ & Hm & Hv & _).
-  split; [|split; [|reflexivity]].
-  - rewrite Hv. destruct (o_srcmac o); cbn; split; congruence.
-  - rewrite Hv, Hm. unfold mac_of. destruct (ov_srcmac ov); cbn; [split; [discriminate|intros [? _]; discriminate]|].
-    destruct (if_mac (o_iface o)); cbn; split; try tauto; try discriminate. intros [_ ?]; discriminate.
-Qed.
+Proof. exact (vpn_iff_no_mac true). Qed.
 
 (* ------------------------------------------------------------------ error, never an empty or foreign source *)
 
@@ -161,15 +151,7 @@ Theorem C17_error_not_empty_source : forall cfg t ov,
          end) /\
       o_srcmac o = match ov_srcmac ov with Some m => Some m | None => if_mac (o_iface o) end
   end.
-Proof.
-  intros cfg t ov. destruct (choose cfg t ov) as [o|e] eqn:H; [|exact I]. apply choose_inv in H.
-  destruct H as (Hin & _ & Hm & _ & ipo & s & Hip & Hs & H4 & Hst). split; [exact Hin|split; [|exact Hm]].
-  destruct (to4 s) as [s4|] eqn:E4; [|exfalso; exact (Hst eq_refl eq_refl)].
-  exists s4. split; [exact H4|split; [exact (to4_length _ _ E4)|]].
-  unfold source_of in Hs. destruct (ov_srcip ov) as [s'|].
-  - injection Hs as ->. exact E4.
-  - subst ipo. destruct Hip as (a & Ha & ->). exists a. split; [exact Ha|exact E4].
-Qed.
+Proof. exact error_or_own_source. Qed.
 
 (* The same statement is FALSE of the code as found: with --iface naming an interface whose only
    address is IPv6 link-local the scan goes ahead with a nil source IP (defect D9; the harness
@@ -199,6 +181,78 @@ Theorem C17_fix_conservative : forall cfg t ov,
   | Err e => choose cfg t ov = Err e
   end.
 Proof. exact choose_fix_rel. Qed.
+
+(* ------------------------------------------------------------------ the case analysis is complete *)
+
+(* When every OS call succeeds ([readable]) the cases of the theorems above are exhaustive: with
+   --iface exactly one of {no such interface, attached, fallback to its first address} applies ... *)
+Theorem C17_selection_complete_iface : forall cfg t ov,
+  readable cfg -> ov_iface ov <> ""%string ->
+  (interface_by_name cfg (ov_iface ov) = Err ErrIfaceName /\ choose cfg t ov = Err ErrIfaceName) \/
+  (exists i, interface_by_name cfg (ov_iface ov) = Ok i /\
+     ((exists t' a, t = Some t' /\ first_cover t' i a /\ choose cfg t ov = finish true ov i (Some (a_ip a))) \/
+      (not_attached_opt t i /\ choose cfg t ov = finish true ov i (first_ip i)))).
+Proof. exact (choose_complete_iface true). Qed.
+
+(* ... and without --iface exactly one of {first attached interface, best default route, error} *)
+Theorem C17_selection_complete_auto : forall cfg t ov,
+  readable cfg -> routes_resolvable cfg -> ov_iface ov = ""%string ->
+  (exists t' pre i post a, t = Some t' /\ ifaces cfg = pre ++ i :: post /\ (forall j, In j pre -> unattached t' j) /\
+     first_cover t' i a /\ choose cfg t ov = finish true ov i (Some (a_ip a))) \/
+  (none_attached cfg t /\
+     ((exists r i, best_default (routes cfg) r /\ interface_by_index cfg (rt_link r) = Ok i /\
+                   choose cfg t ov = finish true ov i (first_ip i)) \/
+      (no_default (routes cfg) /\ choose cfg t ov = Err ErrSrcInterface))).
+Proof. exact (choose_complete_auto true). Qed.
+
+(* The kernel lists the default routes of the main table by ascending metric.  Then only the FIRST
+   usable default route is ever looked up and it alone decides -- including the failure when it
+   names no interface (blackhole / multipath route) or its addresses cannot be read; nothing is
+   assumed about the routes after it or about OS failures elsewhere. *)
+Theorem C17_fallback_first_default : forall cfg t ov pre r post,
+  ov_iface ov = ""%string -> none_attached cfg t -> routes_err cfg = false ->
+  routes cfg = pre ++ r :: post ->
+  (forall r', In r' pre -> is_default r' = false) ->
+  is_default r = true -> rt_prio r < max_int32 ->
+  (forall r', In r' post -> is_default r' = true -> rt_prio r <= rt_prio r') ->
+  choose cfg t ov =
+  match interface_by_index cfg (rt_link r) with
+  | Err e => Err e
+  | Ok i => match get_interface_ip i with Err e => Err e | Ok a => finish true ov i a end
+  end.
+Proof. exact (choose_fallback_first_default true). Qed.
+
+(* ------------------------------------------------------------------ "attached" in arithmetic *)
+
+(* For IPv4 (interface address b/p as Go reports it, target tb/q as ParseIPNet produces it) the
+   attachment test [covers] says: b and the target's base address agree on their first p bits ... *)
+Theorem C17_covers_v4 : forall tb q b p,
+  List.length tb = 4%nat -> List.length b = 4%nat -> bytes tb -> bytes b -> 0 <= q <= 32 -> 0 <= p <= 32 ->
+  (covers (v4_target tb q) (v4_addr b p) = true <->
+   be b / 2 ^ (32 - p) = (be tb / 2 ^ (32 - q) * 2 ^ (32 - q)) / 2 ^ (32 - p)).
+Proof. exact covers_v4. Qed.
+
+(* ... which for a target no larger than the interface's network (q >= p) is membership of the whole
+   target in that network; for q < p only the base address is tested (a /8 whose base address lies
+   in a connected /24 counts as attached, see C17_ex_supernet_attached) *)
+Theorem C17_covers_v4_subnet : forall tb q b p,
+  List.length tb = 4%nat -> List.length b = 4%nat -> bytes tb -> bytes b -> 0 <= p <= q -> q <= 32 ->
+  (covers (v4_target tb q) (v4_addr b p) = true <-> be b / 2 ^ (32 - p) = be tb / 2 ^ (32 - p)).
+Proof. exact covers_v4_subnet. Qed.
+
+(* ------------------------------------------------------------------ gateway (used for the destination MAC) *)
+
+(* GetDefaultGatewayIP: the gateway of the lowest-metric default route through the interface used *)
+Theorem C17_gateway_of_best_route : forall cfg o pre r post,
+  routes_err cfg = false -> routes cfg = pre ++ r :: post ->
+  is_default_via (if_index (o_iface o)) r = true -> rt_prio r < max_int32 ->
+  (forall r', In r' pre -> is_default_via (if_index (o_iface o)) r' = true -> rt_prio r < rt_prio r') ->
+  (forall r', In r' post -> is_default_via (if_index (o_iface o)) r' = true -> rt_prio r <= rt_prio r') ->
+  gateway_of cfg o = Ok (rt_gw r).
+Proof.
+  intros cfg o pre r post He Hs Hd Hp Hpre Hpost. unfold gateway_of, get_default_gateway_ip. rewrite He, Hs.
+  rewrite (gateway_walk_best _ pre r post max_int32 [] Hd Hp Hpre Hpost). reflexivity.
+Qed.
 
 (* ------------------------------------------------------------------ non-vacuity *)
 
@@ -294,6 +348,14 @@ Example C17_ex_first_cover :
               {| a_ip := v4 10 1 2 3; a_mask := [255; 255; 255; 0]; a_ipnet := true |}.
 Proof. exists [], [ll6]. split; [reflexivity|]. split; [intros b []|vm_compute; reflexivity]. Qed.
 
+Example C17_ex_cidr_mask : cidr_mask 19 4 = [255; 255; 224; 0] /\ cidr_mask 0 4 = [0; 0; 0; 0] /\ cidr_mask 32 4 = [255; 255; 255; 255].
+Proof. repeat split; vm_compute; reflexivity. Qed.
+
+Example C17_ex_covers_arith :
+  covers (v4_target [10; 1; 2; 0] 24) (v4_addr [10; 1; 0; 1] 16) = true /\
+  be [10; 1; 0; 1] / 2 ^ (32 - 16) = be [10; 1; 2; 0] / 2 ^ (32 - 16).
+Proof. split; vm_compute; reflexivity. Qed.
+
 Print Assumptions C17_attached.
 Print Assumptions C17_attached_plain.
 Print Assumptions C17_attached_iface.
@@ -307,3 +369,9 @@ Print Assumptions C17_vpn_iff_no_mac.
 Print Assumptions C17_error_not_empty_source.
 Print Assumptions C17_error_not_empty_source_refuted_orig.
 Print Assumptions C17_fix_conservative.
+Print Assumptions C17_selection_complete_iface.
+Print Assumptions C17_selection_complete_auto.
+Print Assumptions C17_fallback_first_default.
+Print Assumptions C17_covers_v4.
+Print Assumptions C17_covers_v4_subnet.
+Print Assumptions C17_gateway_of_best_route.
